@@ -100,31 +100,104 @@ Proof.
   destruct up; repeat (destruct C as [->|C]; [reflexivity|]); subst; reflexivity.
 Qed.
 
-Definition plain (v : ascii) : spec :=
-  {| pre := []; fminus := false; fplus := false; fsharp := false; fspace := false; fzero := false;
-     fwid := None; fprec := None; verb := v; post := [] |}.
+Definition plainp (pr : bytes) (v : ascii) (po : bytes) : spec :=
+  {| pre := pr; fminus := false; fplus := false; fsharp := false; fspace := false; fzero := false;
+     fwid := None; fprec := None; verb := v; post := po |}.
+Definition plain (v : ascii) : spec := plainp [] v [].
 
 Lemma parse_plain_d : parse_format (B "%d") = Some (plain "d").
 Proof. reflexivity. Qed.
 Lemma parse_plain_x : parse_format (B "%x") = Some (plain "x").
 Proof. reflexivity. Qed.
 
-Lemma fmt_integer_plain v z base up :
-  fmt_integer (plain v) z base up = (if (z <? 0)%Z then ["-"] else []) ++ digits_text base up (Z.abs_N z).
+Lemma fmt_integer_plain pr po v z base up :
+  fmt_integer (plainp pr v po) z base up = (if (z <? 0)%Z then ["-"] else []) ++ digits_text base up (Z.abs_N z).
 Proof.
-  unfold fmt_integer. cbn [fprec plain]. unfold int_body. cbn [fprec plain fzero fminus fsharp fplus fspace andb fwid pad_gen].
+  unfold fmt_integer. cbn [fprec plainp]. unfold int_body. cbn [fprec plainp fzero fminus fsharp fplus fspace andb fwid pad_gen].
   unfold zeros. replace (Z.to_nat (0 - blen (digits_text base up (Z.abs_N z)))) with 0%nat by (unfold blen; lia).
   cbn [repeat app]. now destruct (z <? 0)%Z.
 Qed.
 
-(* fmtnum(z, "%d") is the signed decimal text and reads back as z: all integers *)
+(* ---- literal text around the directive: texts free of '%' *)
+Definition no_pct (s : bytes) : bool := forallb (fun c => negb (Ascii.eqb c "%")) s.
+
+Lemma split_pct_app pr r : no_pct pr = true -> split_pct (pr ++ "%" :: r) = Some (pr, r).
+Proof.
+  unfold no_pct. induction pr as [|c t IH]; intros H; [reflexivity|].
+  cbn [forallb] in H. apply andb_prop in H. destruct H as [Hc Ht].
+  cbn [app split_pct]. destruct (Ascii.eqb c "%"); [discriminate Hc|]. rewrite (IH Ht). reflexivity.
+Qed.
+
+Lemma filter_no_pct s : no_pct s = true -> filter (fun c => Ascii.eqb c "%") s = [].
+Proof.
+  unfold no_pct. induction s as [|c t IH]; intros H; [reflexivity|].
+  cbn [forallb] in H. apply andb_prop in H. destruct H as [Hc Ht].
+  cbn [filter]. destruct (Ascii.eqb c "%"); [discriminate Hc|]. exact (IH Ht).
+Qed.
+
+Lemma count_pct_one pr r : no_pct pr = true -> no_pct r = true -> count_pct (pr ++ "%" :: r) = 1%nat.
+Proof.
+  intros Hp Hr. unfold count_pct. rewrite filter_app. cbn [filter]. change (Ascii.eqb "%" "%") with true. cbv iota.
+  rewrite (filter_no_pct pr Hp), (filter_no_pct r Hr). reflexivity.
+Qed.
+
+Lemma split_directive_dx pr v po : no_pct pr = true -> v = "d" \/ v = "x" ->
+  split_directive (pr ++ "%" :: v :: po) = Some (pr, [], false, v, po).
+Proof. intros H [-> | ->]; unfold split_directive; rewrite (split_pct_app pr _ H); reflexivity. Qed.
+
+Lemma parse_format_dx pr v po : no_pct pr = true -> v = "d" \/ v = "x" ->
+  parse_format (pr ++ "%" :: v :: po) = Some (plainp pr v po).
+Proof. intros H [-> | ->]; unfold parse_format; rewrite (split_pct_app pr _ H); reflexivity. Qed.
+
+Lemma go_format_dx pr v po : no_pct pr = true -> v = "d" \/ v = "x" ->
+  go_format (pr ++ "%" :: v :: po) = (KInt, pr ++ "%" :: v :: po).
+Proof. intros H V. unfold go_format. rewrite (split_directive_dx pr v po H V). destruct V as [-> | ->]; reflexivity. Qed.
+
+Definition sdec (z : Z) : bytes := (if (z <? 0)%Z then ["-"] else []) ++ dec (Z.abs_N z).
+
+(* fmtnum(z, pr ++ "%d" ++ po) = pr ++ signed decimal text ++ po: all integers, all texts free of '%' *)
+Lemma fmtnum_d_literal z txt pr po : no_pct pr = true -> no_pct po = true ->
+  fmtnum (VInt z) txt (pr ++ "%" :: "d" :: po) = FOut (pr ++ sdec z ++ po).
+Proof.
+  intros Hp Ho. unfold fmtnum.
+  assert (Hd : no_pct ("d" :: po) = true) by exact Ho.
+  rewrite (count_pct_one pr ("d" :: po) Hp Hd). cbn [Nat.eqb negb].
+  rewrite (go_format_dx pr "d" po Hp (or_introl eq_refl)). cbv beta iota.
+  rewrite (parse_format_dx pr "d" po Hp (or_introl eq_refl)). cbv beta iota.
+  unfold sprintf_int. cbn [verb plainp pre post]. change (Ascii.eqb "d" "d") with true. cbv iota.
+  rewrite fmt_integer_plain. reflexivity.
+Qed.
+
 Lemma fmtnum_d_text z txt :
   fmtnum (VInt z) txt (B "%d") = FOut ((if (z <? 0)%Z then ["-"] else []) ++ dec (Z.abs_N z)).
 Proof.
-  unfold fmtnum. change (count_pct (B "%d")) with 1%nat. cbn [Nat.eqb negb].
-  change (translate (B "%d")) with (B "%d"). rewrite parse_plain_d. change (formatter_kind (B "%d")) with KInt.
-  cbv iota. unfold sprintf_int. cbn [verb plain pre post]. change (Ascii.eqb "d" "d") with true. cbv iota.
-  rewrite fmt_integer_plain. cbn [app of_opt]. now rewrite app_nil_r.
+  pose proof (fmtnum_d_literal z txt [] [] eq_refl eq_refl) as H. cbn [app] in H. rewrite app_nil_r in H. exact H.
+Qed.
+
+Lemma as_unsigned_nonneg z : (-18446744073709551616 <= z)%Z -> (0 <= as_unsigned z)%Z.
+Proof. intros H. unfold as_unsigned. destruct (z <? 0)%Z eqn:E; lia. Qed.
+
+Lemma as_unsigned_mod z : (-18446744073709551616 <= z < 18446744073709551616)%Z ->
+  (z mod 18446744073709551616)%Z = as_unsigned z.
+Proof.
+  intros H. unfold as_unsigned. destruct (z <? 0)%Z eqn:E.
+  - rewrite <- (Z_mod_plus_full z 1 18446744073709551616). rewrite Z.mul_1_l. apply Z.mod_small. lia.
+  - apply Z.mod_small. lia.
+Qed.
+
+(* fmtnum(z, pr ++ "%x" ++ po) = pr ++ hex digits of the 64-bit two's complement of z ++ po *)
+Lemma fmtnum_x_literal z txt pr po : no_pct pr = true -> no_pct po = true -> (-18446744073709551616 <= z)%Z ->
+  fmtnum (VInt z) txt (pr ++ "%" :: "x" :: po) = FOut (pr ++ digits_text 16 false (Z.to_N (as_unsigned z)) ++ po).
+Proof.
+  intros Hp Ho Hz. unfold fmtnum.
+  assert (Hd : no_pct ("x" :: po) = true) by exact Ho.
+  rewrite (count_pct_one pr ("x" :: po) Hp Hd). cbn [Nat.eqb negb].
+  rewrite (go_format_dx pr "x" po Hp (or_intror eq_refl)). cbv beta iota.
+  rewrite (parse_format_dx pr "x" po Hp (or_intror eq_refl)). cbv beta iota.
+  unfold sprintf_int. cbn [verb plainp pre post]. change (Ascii.eqb "x" "d") with false. change (Ascii.eqb "x" "x") with true. cbv iota.
+  rewrite fmt_integer_plain. pose proof (as_unsigned_nonneg z Hz) as N.
+  replace (as_unsigned z <? 0)%Z with false by lia. cbn [app of_opt].
+  now replace (Z.abs_N (as_unsigned z)) with (Z.to_N (as_unsigned z)) by lia.
 Qed.
 
 Lemma parse_signed_dec_text z :
@@ -147,11 +220,19 @@ Qed.
 Lemma fmtnum_x_text z txt : (0 <= z)%Z ->
   fmtnum (VInt z) txt (B "%x") = FOut (digits_text 16 false (Z.to_N z)).
 Proof.
-  intros Hz. unfold fmtnum. change (count_pct (B "%x")) with 1%nat. cbn [Nat.eqb negb].
-  change (translate (B "%x")) with (B "%x"). rewrite parse_plain_x. change (formatter_kind (B "%x")) with KInt.
-  cbv iota. unfold sprintf_int. cbn [verb plain pre post]. change (Ascii.eqb "x" "d") with false. change (Ascii.eqb "x" "x") with true.
-  cbv iota. rewrite fmt_integer_plain. replace (z <? 0)%Z with false by lia. cbn [app of_opt]. rewrite app_nil_r.
-  now replace (Z.abs_N z) with (Z.to_N z) by lia.
+  intros Hz. pose proof (fmtnum_x_literal z txt [] [] eq_refl eq_refl ltac:(lia)) as H. cbn [app] in H. rewrite app_nil_r in H.
+  unfold as_unsigned in H. replace (z <? 0)%Z with false in H by lia. exact H.
+Qed.
+
+(* %x of any int64 is hexfmt without its 0x: the 64-bit two's complement, which reads back as z mod 2^64 *)
+Lemma fmtnum_x_hexfmt z txt : (-9223372036854775808 <= z <= 9223372036854775807)%Z ->
+  exists t, fmtnum (VInt z) txt (B "%x") = FOut t /\ hexfmt (VInt z) txt = "0" :: "x" :: t
+            /\ parse_base 16 t 0 = Some (Z.to_N (z mod 18446744073709551616)).
+Proof.
+  intros Hz. exists (digits_text 16 false (Z.to_N (as_unsigned z))).
+  pose proof (fmtnum_x_literal z txt [] [] eq_refl eq_refl ltac:(lia)) as H. cbn [app] in H. rewrite app_nil_r in H.
+  split; [exact H|]. unfold hexfmt. rewrite (as_unsigned_mod z ltac:(lia)). split; [reflexivity|].
+  apply parse_digits_text; lia.
 Qed.
 
 (* ---- width and padding laws *)
@@ -260,10 +341,105 @@ Lemma fmtnum_x_roundtrip z txt : (0 <= z)%Z ->
   exists t, fmtnum (VInt z) txt (B "%x") = FOut t /\ parse_base 16 t 0 = Some (Z.to_N z).
 Proof. intros Hz. eexists. split; [now apply fmtnum_x_text|]. apply parse_digits_text; lia. Qed.
 
-(* witnesses of the recorded findings, on the model (the same inputs are probed on mlr by the check) *)
-Lemma fmtnum_literal_text_mangled : fmtnum (VInt 17) (B "17") (B "old:%d") = FOut (B "od:17").
-Proof. vm_compute. reflexivity. Qed.
-Lemma fmtnum_trailing_text : fmtnum (VInt 17) (B "17") (B "%5d|") = FOut (B "%!d(string=   17)|").
-Proof. vm_compute. reflexivity. Qed.
-Lemma fmtnum_x_negative : fmtnum (VInt (-1)) (B "-1") (B "%x") = FOut (B "-1") /\ hexfmt (VInt (-1)) (B "-1") = B "0xffffffffffffffff".
-Proof. vm_compute. split; reflexivity. Qed.
+(* the witnesses of the repaired findings fmtnum-literal-text-mangled, fmtnum-trailing-text and
+   fmtnum-x-negative-not-twos-complement, on the model (the same inputs are probed on mlr by the check) *)
+Lemma fmtnum_repaired_witnesses :
+  fmtnum (VInt 17) (B "17") (B "old:%d") = FOut (B "old:17")
+  /\ fmtnum (VInt 17) (B "17") (B "%5d|") = FOut (B "   17|")
+  /\ fmtnum (VInt 0) (B "0") (B "le %16lf") = FOut (B "le         0.000000")
+  /\ fmtnum (VInt (-1)) (B "-1") (B "%x") = FOut (B "ffffffffffffffff") /\ hexfmt (VInt (-1)) (B "-1") = B "0xffffffffffffffff"
+  /\ fmtnum (VInt (-5)) (B "-5") (B "%08llx") = FOut (B "fffffffffffffffb")
+  /\ fmtnum (VInt (-1)) (B "-1") (B "%-10x|") = FOut (B "ffffffffffffffff|").
+Proof. vm_compute. repeat split; reflexivity. Qed.
+
+(* ---- the int <-> float coercion rule of the formatters, and fmtifnum *)
+(* an integer verb applied to a float formats int(float): truncation toward zero *)
+Lemma fmtnum_int_verb_of_float bits x z txt f :
+  fst (go_format f) = KInt -> decode_bits bits = Some x -> int_of_float x = Some z ->
+  fmtnum (VFloat bits) txt f = fmtnum (VInt z) txt f.
+Proof.
+  intros K D I. unfold fmtnum. destruct (negb (Nat.eqb (count_pct f) 1)); [reflexivity|].
+  destruct (go_format f) as [k g]. cbn [fst] in K. subst k. cbv beta iota.
+  destruct (parse_format g); [|reflexivity]. rewrite D, I. reflexivity.
+Qed.
+
+Lemma int_of_float_trunc neg num den z : int_of_float (neg, num, den) = Some z ->
+  z = (if neg then - Z.of_N (num / den) else Z.of_N (num / den))%Z /\ (-9223372036854775808 <= z <= 9223372036854775807)%Z.
+Proof.
+  unfold int_of_float.
+  destruct ((-9223372036854775808 <=? (if neg then - Z.of_N (num / den) else Z.of_N (num / den)))%Z &&
+            ((if neg then - Z.of_N (num / den) else Z.of_N (num / den)) <=? 9223372036854775807)%Z) eqn:E; [|discriminate].
+  intros H. injection H as <-. split; [reflexivity|lia].
+Qed.
+
+(* a float verb applied to an int formats float64(int), which is exact below 2^53 *)
+Lemma fmtnum_float_verb_of_int z txt f :
+  fst (go_format f) = KFloat ->
+  fmtnum (VInt z) txt f =
+    if negb (Nat.eqb (count_pct f) 1) then FError else
+    match parse_format (snd (go_format f)) with Some sp => of_opt (sprintf_float sp (float_of_int z)) | None => FUnmodelled end.
+Proof.
+  intros K. unfold fmtnum. destruct (negb (Nat.eqb (count_pct f) 1)); [reflexivity|].
+  destruct (go_format f) as [k g]. cbn [fst snd] in *. subst k. reflexivity.
+Qed.
+
+Lemma float_of_int_exact z : (Z.abs z < 9007199254740992)%Z -> float_of_int z = ((z <? 0)%Z, Z.abs_N z, 1).
+Proof.
+  intros H. unfold float_of_int. destruct (N.eq_dec (Z.abs_N z) 0) as [E|E].
+  - rewrite E. reflexivity.
+  - replace (Z.abs_N z =? 0) with false by lia.
+    assert (L : N.log2 (Z.abs_N z) < 53).
+    { apply N.log2_lt_pow2; [lia|]. change (2 ^ 53) with 9007199254740992. lia. }
+    replace (N.log2 (Z.abs_N z) + 1 <=? 53) with true by lia. reflexivity.
+Qed.
+
+(* fmtifnum never answers error; a format without exactly one '%' is an error for fmtnum and the input back for fmtifnum *)
+Lemma fmtifnum_never_error v txt f : fmtifnum v txt f <> FError.
+Proof. unfold fmtifnum. destruct (fmtnum v txt f); discriminate. Qed.
+Lemma fmtifnum_spec v txt f :
+  (fmtnum v txt f = FError -> fmtifnum v txt f = FOut txt) /\ (fmtnum v txt f <> FError -> fmtifnum v txt f = fmtnum v txt f).
+Proof. unfold fmtifnum. destruct (fmtnum v txt f); split; intros H; try reflexivity; try discriminate; now elim H. Qed.
+Lemma fmtnum_rejects v txt f : count_pct f <> 1%nat -> fmtnum v txt f = FError /\ fmtifnum v txt f = FOut txt.
+Proof.
+  intros H. assert (E : fmtnum v txt f = FError).
+  { unfold fmtnum. destruct (Nat.eqb (count_pct f) 1) eqn:Q; [apply Nat.eqb_eq in Q; contradiction|reflexivity]. }
+  split; [exact E|]. unfold fmtifnum. now rewrite E.
+Qed.
+
+(* ---- leftpad / rightpad / truncate: length laws in characters *)
+From Miller Require Import C15.Utf8Proofs.
+Lemma strlen_repeat p k b : valid_utf8 p = true ->
+  strlen (List.concat (repeat p k) ++ b) = (Z.of_nat k * strlen p + strlen b)%Z.
+Proof.
+  intros V. induction k as [|k IH].
+  - cbn [repeat List.concat app]. lia.
+  - cbn [repeat List.concat]. rewrite <- app_assoc. rewrite (strlen_app_valid p _ V). rewrite IH. lia.
+Qed.
+Lemma leftpad_length s n p : valid_utf8 p = true ->
+  strlen (leftpad s n p) = (Z.of_nat (pad_count s n p) * strlen p + strlen s)%Z.
+Proof. intros V. unfold leftpad. apply strlen_repeat. exact V. Qed.
+Lemma rightpad_length s n p : valid_utf8 s = true -> valid_utf8 p = true ->
+  strlen (rightpad s n p) = (strlen s + Z.of_nat (pad_count s n p) * strlen p)%Z.
+Proof.
+  intros Vs V. unfold rightpad. rewrite (strlen_app_valid s _ Vs). f_equal.
+  rewrite <- (app_nil_r (List.concat (repeat p (pad_count s n p)))). rewrite (strlen_repeat p _ [] V).
+  change (strlen []) with 0%Z. lia.
+Qed.
+Lemma pad_count_bounds s n p : (0 < strlen p)%Z -> (strlen s + strlen p <= n)%Z ->
+  (n - strlen p < Z.of_nat (pad_count s n p) * strlen p + strlen s <= n)%Z.
+Proof.
+  intros P H. unfold pad_count.
+  replace ((strlen p <=? 0)%Z || (n <? strlen s + strlen p)%Z) with false by lia.
+  assert (Q : (0 <= (n - strlen s) / strlen p)%Z) by (apply Z.div_pos; lia).
+  rewrite (Z2Nat.id _ Q).
+  pose proof (Z.div_mod (n - strlen s) (strlen p) ltac:(lia)) as D.
+  pose proof (Z.mod_pos_bound (n - strlen s) (strlen p) P) as B. nia.
+Qed.
+Lemma pad_count_zero s n p : (n < strlen s + strlen p)%Z -> leftpad s n p = s /\ rightpad s n p = s.
+Proof.
+  intros H. unfold leftpad, rightpad, pad_count.
+  replace ((strlen p <=? 0)%Z || (n <? strlen s + strlen p)%Z) with true by lia.
+  cbn [repeat List.concat app]. split; [reflexivity|apply app_nil_r].
+Qed.
+Lemma truncate_short s n : (strlen s <= n)%Z -> truncate s n = s.
+Proof. intros H. unfold truncate. unfold strlen in H. now replace (Z.of_nat (List.length (runes s)) <=? n)%Z with true by lia. Qed.
